@@ -445,9 +445,8 @@ def run_case(case):
 
     async def main():
         await {"codec": _run_codec, "expect": _run_expect, "convo": _run_convo, "trunc": _run_trunc}[case["kind"]](case, obs)
-    _, excs, quiescent = vloop.run(main)
-    obs["quiescent"] = quiescent
-    return obs
+    from .c02pipe import run_budgeted
+    return run_budgeted(main, obs)
 
 
 def oracle(ctx, case, obs):
